@@ -37,3 +37,9 @@ def run(chk):
                            "accepted specs validated by TLC against Planner.NormChunksVerdict, rejected (raising) specs are fine")
     finally:
         tlc.cleanup(rd)
+
+
+def replay(chk, path):
+    from ._plan import replay_case
+
+    return replay_case(chk, path)
